@@ -5,6 +5,8 @@ import (
 	"flag"
 	"fmt"
 	"os"
+	"path/filepath"
+	"strings"
 	"time"
 
 	"github.com/zalf-rpm/Hermes2Go/hermes"
@@ -13,8 +15,10 @@ import (
 func init() { commands["c12"] = c12 }
 
 // c12 prints, for the real converters,
-//   N n y m d zt mas ty tm td tdoy      KalenderDate(n), DateConverter(DElong) of the Go-time text, Go time's date
-//   T fmt sep cent n text zt mas        Kalender(fmt,sep)(n) and Datum(cent,fmt)(text)
+//
+//	N n y m d zt mas ty tm td tdoy      KalenderDate(n), DateConverter(DElong) of the Go-time text, Go time's date
+//	T fmt sep cent n text zt mas        Kalender(fmt,sep)(n) and Datum(cent,fmt)(text)
+//
 // and lines "ORACLE <what>" for every deviation from Go's time package / the round trip.
 func c12(args []string) {
 	fs := flag.NewFlagSet("c12", flag.ExitOnError)
@@ -104,6 +108,52 @@ func c12(args []string) {
 				}
 			}
 		}
+	}
+	// the converters as a run gets them: readConfig installs g.Datum / g.Kalender per configuration; several
+	// configurations with different date formats live in one process (one session, several projects) and are
+	// asked for the same day numbers in turn
+	tmp, err := os.MkdirTemp("", "c12cfg")
+	if err == nil {
+		defer os.RemoveAll(tmp)
+		names := []string{"DateDEshort", "DateDElong", "DateENshort", "DateENlong"}
+		ends := []string{"311299", "31121999", "123199", "12311999"}
+		gs := make([]hermes.GlobalVarsMain, len(names))
+		for i, nm := range names {
+			proj := filepath.Join(tmp, "project", "p"+nm)
+			os.MkdirAll(proj, 0o755)
+			os.WriteFile(filepath.Join(proj, "config.yml"), []byte("Dateformat: "+nm+"\nDivideCentury: 50\nEndDate: '"+ends[i]+"'\n"), 0o644)
+			gs[i] = hermes.NewGlobalVarsMain()
+			gs[i].Session = hermes.NewHermesSession()
+			hp := hermes.NewHermesFilePath(tmp, "p"+nm, "u", "", "")
+			hermes.VerifReadConfig(&gs[i], map[string]string{}, &hp)
+		}
+		checked := 0
+		for n := 18264; n <= 54422; n += 1 + r.intn(60) { // 1951..2049: unambiguous with DivideCentury 50
+			t := base.AddDate(0, 0, n)
+			order := []int{0, 1, 2, 3, 3, 2, 1, 0, 2, 0}
+			for _, i := range order {
+				var want, bare string
+				switch i {
+				case 0:
+					want = fmt.Sprintf("%02d.%02d.%02d", t.Day(), int(t.Month()), t.Year()%100)
+				case 1:
+					want = fmt.Sprintf("%02d.%02d.%d", t.Day(), int(t.Month()), t.Year())
+				case 2:
+					want = fmt.Sprintf("%02d.%02d.%02d", int(t.Month()), t.Day(), t.Year()%100)
+				case 3:
+					want = fmt.Sprintf("%02d.%02d.%d", int(t.Month()), t.Day(), t.Year())
+				}
+				bare = strings.ReplaceAll(want, ".", "")
+				if got := gs[i].Kalender(n); got != want {
+					fail("configured Kalender format=%s n=%d text=%s want=%s (several configurations in one process)", names[i], n, got, want)
+				}
+				if zt, mas := gs[i].Datum(bare); mas != n || zt != t.YearDay() {
+					fail("configured Datum format=%s text=%s -> masdat=%d doy=%d want %d %d", names[i], bare, mas, zt, n, t.YearDay())
+				}
+				checked++
+			}
+		}
+		fmt.Fprintf(w, "CONFIGURED %d\n", checked)
 	}
 	fmt.Fprintf(w, "ORACLE_TOTAL %d\n", oracleFails)
 }
